@@ -49,7 +49,13 @@ func (e *Engine) verifyBlock(blk *Block) (u *Unit) {
 		}
 		ls := c.freshLeaves("in_"+pname, p.Type())
 		lay := layout(p.Type())
+		if _, isSlice := p.Type().Underlying().(*types.Slice); isSlice {
+			ls[1] = IntLit(0)
+		}
 		for k := range ls {
+			if ls[k].S == "0" {
+				continue
+			}
 			nm := pname
 			if len(ls) > 1 {
 				nm = fmt.Sprintf("%s#%d%s", pname, k, lay[k].Role)
@@ -64,7 +70,7 @@ func (e *Engine) verifyBlock(blk *Block) (u *Unit) {
 		case *types.Slice:
 			c.assert(Lt(ls[0], alloc0))
 			// slice parameters are normalised to offset 0 (see DESIGN: memory model)
-			c.assert(Eq(ls[1], IntLit(0)))
+			ls[1] = IntLit(0)
 			c.note("assumed", "slice parameters are viewed at offset 0 of their backing array; partial overlap between distinct slice parameters is not modelled")
 		case *types.Map, *types.Chan:
 			c.assert(Lt(ls[0], alloc0))
